@@ -64,7 +64,12 @@ func drawC14(rt *rapid.T) c14Draws {
 	d.HostIdx = rapid.IntRange(0, 2).Draw(rt, "hostidx")
 	d.Mask = rapid.Uint64().Draw(rt, "casemask")
 	for i := range d.Benign {
-		d.Benign[i] = rapid.IntRange(0, 3).Draw(rt, "benign") == 0
+		// the two shapes that are documented load errors (same host twice, clashing basic rules) are kept rare
+		if i == 0 || i == 3 {
+			d.Benign[i] = rapid.IntRange(0, 11).Draw(rt, "benign") == 7
+		} else {
+			d.Benign[i] = rapid.IntRange(0, 2).Draw(rt, "benign") == 1
+		}
 	}
 	d.Default = rapid.Bool().Draw(rt, "default")
 	d.BDup = rapid.IntRange(0, 1).Draw(rt, "bdup")
